@@ -771,12 +771,17 @@ class LLUDPMessageLogEntry(AbstractMessageLogEntry):
                     elif selector_len == 4:
                         try:
                             deserialized = block.deserialize_var(var_name)
+                            # Discard the tag if this is a tagged union, we only want the value
+                            if isinstance(deserialized, TaggedUnion):
+                                deserialized = deserialized.value
+                            # May be lazily parsed, this forces any parse failure to happen in here
+                            if not isinstance(deserialized, dict):
+                                continue
                         except KeyError:
                             continue
-                        # Discard the tag if this is a tagged union, we only want the value
-                        if isinstance(deserialized, TaggedUnion):
-                            deserialized = deserialized.value
-                        if not isinstance(deserialized, dict):
+                        except Exception:
+                            # Not something the subfield serializer understands, can't match anything
+                            LOG.debug(f"Failed to deserialize {field_key!r} for filter")
                             continue
                         for key in deserialized.keys():
                             if fnmatch.fnmatchcase(str(key), matcher.selector[3]):
